@@ -255,12 +255,10 @@ def _config_scenario(g, opname, X, A2, b):
     mk = lambda t: pp.LieTensor(t, ltype=GTYPE[g])
     ten = lambda r: r.tensor() if isinstance(r, pp.LieTensor) else r
     out = []
-    if opname != '+':
-        # (X + a is clone().add_(a): like every in-place torch op it broadcasts `a` to X's shape only, so one element plus a batch of
-        # vectors raises; Retr broadcasts both ways.  Not claimed as a violation: the documentation of pp.add promises nothing else.)
-        full = ten(op(X, A2))
-        for k in range(2):
-            out.append(('one element x batch of vectors, item %d' % k, full[k], ten(op(X, A2[k]))))
+    # (out-of-place X + a broadcasts both ways since fc145c5; before, one element plus a batch of vectors raised - reported through C06)
+    full = ten(op(X, A2))
+    for k in range(2):
+        out.append(('one element x batch of vectors, item %d' % k, full[k], ten(op(X, A2[k]))))
     X2 = mk(torch.stack([X.tensor(), ten(X + b)]))
     fullb = ten(op(X2, A2[0]))
     for k in range(2):
@@ -268,11 +266,10 @@ def _config_scenario(g, opname, X, A2, b):
     # a size-1 batch axis of the elements that is NOT leading: (2,1) elements against (2,2) vectors
     Xc = mk(X2.tensor().unsqueeze(1))
     Ab = pp.LieTensor(torch.stack([A2.tensor(), A2.tensor().flip(0)]), ltype=ATYPE[g])
-    if opname != '+':
-        fullc = ten(op(Xc, Ab))
-        for i_ in range(2):
-            for j_ in range(2):
-                out.append(('(2,1) elements x (2,2) vectors, item (%d,%d)' % (i_, j_), fullc[i_, j_], ten(op(X2[i_], Ab[i_, j_]))))
+    fullc = ten(op(Xc, Ab))
+    for i_ in range(2):
+        for j_ in range(2):
+            out.append(('(2,1) elements x (2,2) vectors, item (%d,%d)' % (i_, j_), fullc[i_, j_], ten(op(X2[i_], Ab[i_, j_]))))
     Xh = mk(X.tensor().clone())
     op(Xh, A2[0])
     Xh.add_(b)
